@@ -203,7 +203,7 @@ func solve(w *World, o *Obl, tier string, keepQuery bool) *Result {
 		return r
 	}
 	// first try the cone-of-influence slice (an unsat answer for it is final); fall back to the full query
-	if o.enc != nil && o.Kind != "cover" && !o.Short {
+	if o.enc != nil && o.Kind != "cover" && !o.Short && os.Getenv("GOVC_NOSLICE") == "" {
 		sq, sRec := o.queryOpt(w, true)
 		solvers := []string{"z3-new", "z3"}
 		if sRec {
